@@ -41,6 +41,7 @@ type Config struct {
 	RawServer bool   // the harness plays the tunnel server with raw frames
 	Free      bool   // free-running (no delivery gating)
 	Keys      bool   // reverse handler uses an affinity key function (key from opening metadata "key")
+	Nested    bool   // the scripted service is served through a tunnel that itself runs over the outer tunnel
 }
 
 type World struct {
@@ -52,6 +53,7 @@ type World struct {
 	openErr error
 
 	handler   *grpctunnel.TunnelServiceHandler
+	inner     *grpctunnel.TunnelServiceHandler // nested: the handler of the inner (forward) tunnel
 	revServer *grpctunnel.ReverseTunnelServer
 	stub      *Stub
 
